@@ -18,6 +18,7 @@ import (
 	"os"
 	"runtime"
 	"sort"
+	"strings"
 	"sync"
 	"time"
 
@@ -51,12 +52,12 @@ var theAuth = &verifAuth{ok: true}
 
 type conn struct {
 	accepted bool // the broker answered CONNACK 0: a service exists whose teardown ends with the stop-done hook
-	id     int
-	cli    net.Conn
-	wq     chan []byte // bytes to write, in order
-	pkts   chan []byte // complete packets; nil = closed
-	live   bool        // accepted and not yet ended
-	closed bool        // the reader saw the end of the stream
+	id       int
+	cli      net.Conn
+	wq       chan []byte // bytes to write, in order
+	pkts     chan []byte // complete packets; nil = closed
+	live     bool        // accepted and not yet ended
+	closed   bool        // the reader saw the end of the stream
 }
 
 type call struct {
@@ -74,7 +75,7 @@ type world struct {
 	stopDone chan service.VerifServiceInfo
 	inproc   map[int]*service.OnPublishFunc
 	serving  sync.WaitGroup // handleConnection calls in progress
-	fails    []string // harness-level failures (stuck, malformed stream)
+	fails    []string       // harness-level failures (stuck, malformed stream)
 }
 
 func newWorld() *world {
@@ -94,7 +95,9 @@ func newWorld() *world {
 	return w
 }
 
-func (w *world) fail(format string, a ...interface{}) { w.fails = append(w.fails, fmt.Sprintf(format, a...)) }
+func (w *world) fail(format string, a ...interface{}) {
+	w.fails = append(w.fails, fmt.Sprintf(format, a...))
+}
 
 func (w *world) open(id int) *conn {
 	cli, srv := net.Pipe()
@@ -437,11 +440,18 @@ type runner struct {
 	stats map[string]int
 }
 
-func (rn *runner) run(evs []hx.Group) {
+type ofail struct {
+	msg    string // the failure
+	suffix string // where in the history
+}
+
+// exec runs one history on a fresh broker and returns the canonical observations, the oracle's
+// failures and the indices of the events that were first packets the broker must refuse
+func (rn *runner) exec(evs []hx.Group, count bool) (obsAll []hx.Group, fails []ofail, refused []int) {
 	w := newWorld()
-	caseNo := rn.out.N
-	ref := newRef()
-	var obsAll []hx.Group
+	// the specification-level reference and the variants that explain the listed findings F7 / F18
+	refs := []*refBroker{newRef(false, false), newRef(true, false), newRef(false, true), newRef(true, true)}
+	tags := []string{"", "empty-level", "F18-pubrel-order", "F18-pubrel-order+empty-level"}
 	for i, ev := range evs {
 		obs := w.event(ev)
 		w.callMu.Lock()
@@ -460,13 +470,44 @@ func (rn *runner) run(evs []hx.Group) {
 			}
 		}
 		obsAll = append(obsAll, canon(obs, calls))
-		for _, m := range ref.check(ev, obs, calls) {
-			rn.out.Oracle(caseNo, "%s [event %d: %v]", m, i, short(ev))
+		var res [][]failure
+		for _, r := range refs {
+			res = append(res, r.check(ev, obs, calls))
 		}
-		rn.stats[fmt.Sprintf("event_%d", ev[0])]++
+		if refs[0].lastRefused {
+			refused = append(refused, i)
+		}
+		suffix := fmt.Sprintf(" [event %d: %v]", i, short(ev))
+		for _, m := range res[0] {
+			if m.prop == "F17" {
+				fails = append(fails, ofail{m.msg, suffix})
+				continue
+			}
+			// a listed finding explains the failure if its variant predicts exactly what this connection received
+			text := m.prop + ": " + m.msg
+			for v := 1; v < len(refs); v++ {
+				explained := true
+				for _, x := range res[v] {
+					if x.scope == m.scope {
+						explained = false
+					}
+				}
+				if explained {
+					if refs[v].quirk && m.prop != "C01" && m.prop != "C08" {
+						m.prop = "C01" // the message was handed on as it must be; who receives it is the topic store's matching
+					}
+					text = tags[v] + ": (" + m.prop + ") " + m.msg
+					break
+				}
+			}
+			fails = append(fails, ofail{text, suffix})
+		}
+		if count {
+			rn.stats[fmt.Sprintf("event_%d", ev[0])]++
+		}
 	}
 	for _, f := range w.fails {
-		rn.out.Oracle(caseNo, "%s", f)
+		fails = append(fails, ofail{f, ""})
 	}
 	// clean up: end whatever is still open
 	// (their teardown must be over before the next history starts: it may still publish wills and
@@ -486,11 +527,56 @@ func (rn *runner) run(evs []hx.Group) {
 		select {
 		case <-w.stopDone:
 		case <-time.After(8 * time.Second):
-			rn.out.Oracle(caseNo, "STUCK: teardown of a connection did not finish within 8s at the end of the history\n%s", dump())
+			fails = append(fails, ofail{fmt.Sprintf("STUCK: teardown of a connection did not finish within 8s at the end of the history\n%s", dump()), ""})
 			pendingStops = 1
 		}
 	}
 	service.VerifSetHooks(nil, nil)
+	return
+}
+
+func (rn *runner) run(evs []hx.Group) {
+	caseNo := rn.out.N
+	obsAll, fails, refused := rn.exec(evs, true)
+	// C11: is a failure the effect of a first packet that had to be refused?  The counterfactual decides: the
+	// same history without the refused first packets, on the implementation again
+	unexplained := false
+	for _, f := range fails {
+		if !strings.Contains(f.msg, ": (") && !strings.HasPrefix(f.msg, "C11:") && !strings.HasPrefix(f.msg, "STUCK") {
+			unexplained = true
+		}
+	}
+	if unexplained && len(refused) > 0 {
+		var evs2 []hx.Group
+		for i, ev := range evs {
+			if len(refused) > 0 && refused[0] == i {
+				refused = refused[1:]
+				continue
+			}
+			evs2 = append(evs2, ev)
+		}
+		_, fails2, _ := rn.exec(evs2, false)
+		still := map[string]int{}
+		for _, f := range fails2 {
+			still[f.msg]++
+		}
+		for i, f := range fails {
+			if strings.Contains(f.msg, ": (") || strings.HasPrefix(f.msg, "STUCK") {
+				continue
+			}
+			if still[f.msg] > 0 {
+				still[f.msg]--
+				continue
+			}
+			if j := strings.Index(f.msg, ": "); j > 0 && !strings.HasPrefix(f.msg, "C11:") {
+				fails[i].msg = "C11: (" + f.msg[:j] + ") without the refused first packets of this history the following does not happen: " + f.msg[j+2:]
+				rn.stats["attributed_to_refused_first_packet"]++
+			}
+		}
+	}
+	for _, f := range fails {
+		rn.out.Oracle(caseNo, "%s%s", f.msg, f.suffix)
+	}
 	rn.out.Case("broker", append([]hx.Group{hx.G(bufSize)}, evs...), obsAll)
 }
 
